@@ -3,6 +3,9 @@
 import json, subprocess, os
 HERE = os.path.dirname(os.path.dirname(os.path.abspath(__file__)))
 PROPS = {
+ "measure_POVM on a stand-alone state rejects operators of the wrong shape": "C17,C09",
+ "the reduced state of a vector keeps weakly populated": "C01,C10,C11",
+ "Polarization.contract compares with the label vectors": "C02,C01,C08",
  "import Envelope/CompositeEnvelope at run time": "C01,C02,C04,C05,C06,C09",
  "Polarization.contract only reports Label": "C07,C01",
  "renormalise vector-level polarization": "C07,C01",
